@@ -78,7 +78,7 @@ def gen_graph(rng: random.Random, realistic: bool = False) -> nx.MultiDiGraph:
     for i in range(n):
         g.add_node(i, y=lat0 + rng.uniform(-spread, spread), x=lon0 + rng.uniform(-spread, spread))
     arbitrary = rng.random() < 0.3 and not realistic
-    speeds = rng.choice([[30.0], [5.0, 130.0], [5.0, 10.0, 30.0, 60.0, 130.0], [25.0, 40.0, 55.0]])
+    speeds = rng.choice([[30.0], [5.0, 130.0], [5.0, 10.0, 30.0, 60.0, 130.0], [25.0, 40.0, 55.0], [90.0, 128.0, 137.0, 160.0]])
 
     def add(i: int, j: int):
         if i == j or g.has_edge(i, j):
@@ -198,13 +198,20 @@ def gen_case(rng: random.Random, k: int) -> Dict[str, Any]:
                     node_path = [int(route[0].link_id.split("-")[1])] + [int(l.link_id.split("-")[1]) for l in route[1:-1]]
                 except Exception:
                     node_path = []
+            # the junction path the RETURNED route itself takes (what a vehicle will drive): certified too
+            route_path: List[int] = []
+            if len(route) >= 2:
+                try:
+                    route_path = [int(route[0].link_id.split("-")[1])] + [int(l.link_id.split("-")[1]) for l in route[1:-1]]
+                except Exception:
+                    route_path = []
             pot = []
             slack = "0"
             if node_path:
                 dist = dijkstra(edges, node_path[0])
                 pot = [[v, q(x)] for v, x in sorted(dist.items())]
                 slack = q(Fraction(1, 10 ** 9) * (dist.get(node_path[-1], Fraction(0)) + 1))
-            queries.append({"kind": kind, "o": enc_pos(n, o), "d": enc_pos(n, d), "route": enc_route(n, route), "nodePath": node_path,
+            queries.append({"kind": kind, "o": enc_pos(n, o), "d": enc_pos(n, d), "route": enc_route(n, route), "nodePath": node_path, "routePath": route_path,
                             "pot": pot, "slack": slack, "searched": bool(node_path)})
     except Exception as e:
         raised = f"{type(e).__name__}: {e}"[:300]
@@ -222,10 +229,17 @@ def gen_case(rng: random.Random, k: int) -> Dict[str, Any]:
     # ---- the straight-line network
     hav = HaversineRoadNetwork(sim_h3_resolution=15)
     hqueries = []
-    for _ in range(4):
+    for i in range(6):
         l1, l2 = links[rng.choice(link_ids)], links[rng.choice(link_ids)]
         o = hav.position_from_geoid(l1.start)
         d = hav.position_from_geoid(rng.choice([l2.end, l1.start]))
+        if i >= 3 and l1.start != l1.end:
+            # a vehicle under way on the straight-line network: somewhere on the link a-b, routed to the
+            # end of that very link, to another cell of it, or elsewhere
+            line = list(h3.h3_line(l1.start, l1.end))
+            lid = f"{l1.start}-{l1.end}"
+            o = EntityPosition(lid, rng.choice(line))
+            d = rng.choice([EntityPosition(lid, l1.end), EntityPosition(lid, rng.choice(line)), d])
         hqueries.append({"o": enc_pos(n, o), "d": enc_pos(n, d), "route": enc_route(n, hav.route(o, d))})
     return {"op": "router", "id": f"g{k}", "net": table, "queries": queries, "snaps": snaps, "hqueries": hqueries, "raised": raised,
             "meta": {"nodes": g.number_of_nodes(), "links": len(table), "speeds": sorted({d["speed_kmph"] for _, _, d in g.edges(data=True)}),
